@@ -219,6 +219,7 @@ macro_rules! dispatch {
 dispatch!(run_d1, Const<1>, false);
 dispatch!(run_d2, Const<2>, false);
 dispatch!(run_dyn, Dyn, true);
+dispatch!(run_d4, Const<4>, false);
 
 /// Find the value the derivative function returned at (t, y): the most recent logged call whose
 /// arguments are entailed (by the path condition) to equal (t, y) up to 1e-9.
